@@ -93,6 +93,7 @@ type Step struct {
 	NextUpd      int    `json:"nextUpd,omitempty"` // pool index of the next update key
 	NextRec      int    `json:"nextRec,omitempty"` // pool index of the next recovery key
 	NextUpdIsRevealed bool `json:"nextUpdIsRevealed,omitempty"` // recover: the next update key is the recovery key being revealed (allowed)
+	KeyExtras    bool   `json:"keyExtras,omitempty"` // raw builder: the revealed key in the signed payload carries kid / use / alg / key_ops too
 	NonceUpd     bool   `json:"nonceUpd,omitempty"`
 	NonceRec     bool   `json:"nonceRec,omitempty"`
 	SignKey      int    `json:"signKey,omitempty"` // 0: the wallet's current key; else pool index + 1 (hostile / replay)
